@@ -325,6 +325,50 @@ def onepu_curve_mismatch(ctx, rng):
                 ctx.violation("unsuitable-key-accepted:1pu-sender-curve:encrypt", f"{alg} produced a token with recipient on {rc} and sender on {sc}", {"alg": alg, "rc": rc, "sc": sc})
 
 
+def onepu_sender_key(ctx, rng):
+    """ECDH-1PU: the sender's static key takes part in a JWE operation, so its declared use must be enc (and producing needs its private part)"""
+    j = J.load()
+    J.register_drafts()
+    pt = b"c06 sender"
+    for alg, enc in (("ECDH-1PU", "A128GCM"), ("ECDH-1PU+A128KW", "A128CBC-HS256"), ("ECDH-1PU+A256KW", "A256CBC-HS512")):
+        for crv in ("P-256", "X25519", "P-521", "X448"):
+            rk, sk = g.curve_key(crv), g.curve_key(crv)
+            A = [alg, enc]
+            tok = g.make("compact", enc, [(alg, rk, sk)], pt).token
+            tokf = g.make("flattened", enc, [(alg, rk, sk)], pt, alg_in="recipient").token
+            for use in (None, "enc", "sig"):
+                for private in (True, False):
+                    ctx.ev()
+                    d = dict(sk if private else gen.public_jwk(sk))
+                    if use:
+                        d["use"] = use
+                    skey = j.key(d)
+                    kd = {"kind": f"sender:{crv}", "kty": sk["kty"], "arg": crv, "use": use, "key_ops": None, "private": private}
+                    case = {"alg": alg, "enc": enc, "sender_key": kd}
+                    ok_use = use in (None, "enc")
+                    runs = [("encrypt", "jwe.encrypt_compact", ok_use and private,
+                             lambda: j.jwe.encrypt_compact({"alg": alg, "enc": enc}, pt, j.key(gen.public_jwk(rk)), algorithms=A, sender_key=skey)),
+                            ("decrypt", "jwe.decrypt_compact", ok_use, lambda: j.jwe.decrypt_compact(tok, j.key(rk), algorithms=A, sender_key=skey)),
+                            ("decrypt", "jwe.decrypt_json", ok_use, lambda: j.jwe.decrypt_json(copy.deepcopy(tokf), j.key(rk), algorithms=A, sender_key=skey)),
+                            ("decrypt", "jwe.decrypt_compact[sender keyset]", ok_use,
+                             lambda: j.jwe.decrypt_compact(tok, j.key(rk), algorithms=A, sender_key=j.KeySet([skey])))]
+                    for op, path, suitable_, f in runs:
+                        if path.endswith("keyset]"):
+                            continue   # a sender key set is resolved by skid; the reference token carries none
+                        o = call(f)
+                        ctx.count("calls")
+                        ctx.count("sender_key_calls")
+                        ctx.cell(op, path, "sender-" + ("suitable" if suitable_ else "unsuitable:" + ("use" if not ok_use else "public")), "succeeded" if o.ok else "failed")
+                        ctx.nontrivial(("sender", alg, crv, use, private, path))
+                        if o.ok and not suitable_:
+                            why = "use" if not ok_use else "public-key-for-private-operation"
+                            ctx.violation(f"unsuitable-sender-key-accepted:{why}:{op}@{path}",
+                                          f"{op} with {alg} succeeded through {path} with a sender key that is unsuitable ({why}): {kd}", {**case, "op": op, "path": path})
+                        if not o.ok and suitable_:
+                            ctx.violation(f"suitable-sender-key-refused:{o.etype}:{op}@{path}", f"{op} with {alg} through {path} failed with a suitable sender key {kd}: {o.exc!r}",
+                                          {**case, "op": op, "path": path})
+
+
 # --------------------------------------------------------------------------------------
 # HMAC confusion and warnings
 
@@ -404,6 +448,8 @@ def run_shard(ctx):
     if sh == 0:
         confusion_and_warnings(ctx, rng)
         onepu_curve_mismatch(ctx, rng)
+    if sh == 1:
+        onepu_sender_key(ctx, rng)
     work = []
     for alg in JWS_NAMES:
         for kind in KINDS:
@@ -451,3 +497,4 @@ def replay(ctx, case):
     else:
         confusion_and_warnings(ctx, ctx.rng)
         onepu_curve_mismatch(ctx, ctx.rng)
+        onepu_sender_key(ctx, ctx.rng)
